@@ -586,7 +586,9 @@ def hostile_cmds(run, types, thorough, for_c02):
                 # multi-gigabyte lengths on readers whose Ensure() cannot check are a recorded finding and cost
                 # seconds each (the allocation succeeds): all but every 40th go to the checking readers
                 rk = ["pedantic", "buffer", {"bounded": "pedantic", "limit": BIGCAP}][i % 3]
-            if isinstance(rk, dict) and rk.get("limit", 0) < BIGCAP:
+            # (for C02 the small byte limits of the bounded readers are kept: the limit is the input length a
+            #  BoundedReader over a stream vouches for, and the allocation bound is stated relative to it)
+            if isinstance(rk, dict) and rk.get("limit", 0) < BIGCAP and not for_c02:
                 rk = {"bounded": rk["bounded"], "limit": BIGCAP}
             item = {"tid": m["tid"]}
             if for_c02:
